@@ -54,8 +54,23 @@ impl std::fmt::Display for AssetClass {
     }
 }
 
-#[derive(Serialize, Deserialize, Debug, Clone, PartialEq, Eq)]
+#[derive(Serialize, Deserialize, Debug, Clone)]
 pub struct CanonicalAssets(HashMap<AssetClass, i128>);
+
+// Equality is semantic: an entry with amount zero is the same as no entry at
+// all, regardless of how the value was constructed.
+impl PartialEq for CanonicalAssets {
+    fn eq(&self, other: &Self) -> bool {
+        let covers = |a: &Self, b: &Self| {
+            a.iter()
+                .all(|(class, amount)| *amount == b.get(class).copied().unwrap_or(0))
+        };
+
+        covers(self, other) && covers(other, self)
+    }
+}
+
+impl Eq for CanonicalAssets {}
 
 impl std::fmt::Display for CanonicalAssets {
     fn fmt(&self, f: &mut std::fmt::Formatter<'_>) -> std::fmt::Result {
